@@ -554,7 +554,7 @@ func runC01(c *run.Ctx, s *kit.Summary) {
 		x := &in{Pacer: "const", Mode: "loop"}
 		for {
 			x.Freq, x.Per, _ = genConstParams(r)
-			if x.Freq > 0 && x.Per > 0 && (x.Freq <= x.Per || r.Chance(0.15)) {
+			if x.Freq > 0 && x.Per > 0 && (x.Freq <= x.Per || r.Chance(0.5)) {
 				break
 			}
 		}
